@@ -2,7 +2,7 @@
 META = {
     "level": "exploration",
     "technique": "runtime monitoring of build_manifest / start_deep_stats / start_deep_check / deep_traverse(custom walker) on generated directory graphs stored on an in-process grid, compared with an independent reachability model keyed by specification-derived verify-caps",
-    "text": "Generates directory graphs of <= 40 objects on real storage servers: trees, DAGs with shared sub-directories and shared files, cycles (self-loop, loop to an ancestor, loop back to the root through its READ-cap), the same object linked through write-cap and read-cap, SDMF/MDMF/immutable/literal directories, CHK/LIT/SDMF/MDMF files, unknown caps, unreachable objects. The root is opened through its write-cap or read-cap and traversed by the real manifest builder, deep-stats, deep-check (verify=False) and a recording walker. Oracle: identity = verify-cap computed by the independent hash chain; every reachable identity is reported exactly once, identity-less objects (LIT files, LIT directories, unknown nodes) exactly once per link from a visited directory, nothing unreachable is reported; the verify-cap and storage-index sets equal the model's; every manifest (path, cap) resolves in the model and through root.get_child_at_path(path) to that cap; deep-stats counters and sizes (files, directories, immutable, literal, mutable, unknown, size sums, largest file, largest-directory-children, histogram) equal the model's; deep-check and deep-check-and-repair (verify on and off) each hold exactly one result per reachable identity, at a path that resolves to it (health verdicts are not judged); graphs include empty files (size-0 literal, emptied mutable) linked once and twice, and the same mutable object linked from one directory by read-cap and by write-cap under names that sort either way; the walker sees enter_directory once per visited directory with the model's child names.",
+    "text": "Generates directory graphs of <= 40 objects on real storage servers: trees, DAGs with shared sub-directories and shared files, cycles (self-loop, loop to an ancestor, loop back to the root through its READ-cap), the same object linked through write-cap and read-cap, SDMF/MDMF/immutable/literal directories, CHK/LIT/SDMF/MDMF files, unknown caps, unreachable objects. The root is opened through its write-cap or read-cap and traversed by the real manifest builder, deep-stats, deep-check (verify=False) and a recording walker. In about half of the graphs one byte of block data is then flipped in one share of some mutable directories and files: a deep-check / deep-check-and-repair with verify=True must not report an object healthy that a direct check(verify=True) of the same object on a fresh client reports not healthy. Oracle: identity = verify-cap computed by the independent hash chain; every reachable identity is reported exactly once, identity-less objects (LIT files, LIT directories, unknown nodes) exactly once per link from a visited directory, nothing unreachable is reported; the verify-cap and storage-index sets equal the model's; every manifest (path, cap) resolves in the model and through root.get_child_at_path(path) to that cap; deep-stats counters and sizes (files, directories, immutable, literal, mutable, unknown, size sums, largest file, largest-directory-children, histogram) equal the model's; deep-check and deep-check-and-repair (verify on and off) each hold exactly one result per reachable identity, at a path that resolves to it (health verdicts are not judged); graphs include empty files (size-0 literal, emptied mutable) linked once and twice, and the same mutable object linked from one directory by read-cap and by write-cap under names that sort either way; the walker sees enter_directory once per visited directory with the model's child names.",
     "note": "Which of several paths / caps is reported for a shared object is left open (any path that resolves). size-directories / largest-directory depend on serialisation details and are not judged. Trusts the hash chain in _caps.py.",
 }
 LEVEL = "exploration"
@@ -83,16 +83,18 @@ def run(ck):
         finally:
             g.close()
         ncases += 1
-        if ck.tier == "quick" and ncases >= 32:
+        if ck.tier == "quick" and ncases >= 28:
             break
     ck.exhaustive = False
     ck.require_monitor("manifest-exactly-once", "manifest-path-resolves", "verifycap-set", "storage-index-set", "deep-stats-counts",
-                       "deep-check-once-per-object", "deep-check-and-repair-once-per-object", "walker-exactly-once")
+                       "deep-check-once-per-object", "deep-check-and-repair-once-per-object", "walker-exactly-once",
+                       "deep-check-verify-agrees-with-direct-verify")
     ck.require_reach("shared-subdirectory", "shared-file", "same-object-via-write-and-read-cap", "cycle-to-root-via-readcap",
                      "self-loop", "cycle-to-ancestor", "literal-file-linked-twice", "literal-directory-linked-twice", "unknown-node",
                      "immutable-directory", "mdmf-directory", "unreachable-object", "root-opened-via-readcap", "depth>=3",
                      "read-cap-link-sorts-before-write-cap-link", "write-cap-link-sorts-before-read-cap-link", "empty-literal-file",
-                     "empty-literal-file-linked-twice", "deep-check-with-verify")
+                     "empty-literal-file-linked-twice", "deep-check-with-verify", "direct-verify-finds-damaged-directory",
+                     "direct-verify-finds-damaged-file")
 
 
 def one_case(ck, g, rng, caseno):
@@ -573,6 +575,68 @@ def one_case(ck, g, rng, caseno):
         ck.violation("directory-entered-wrong-number-of-times", "enter_directory for %r with children %r: %d times, model %d" % (
             D.show(k0[0])[:50], list(k0[1])[:5], got_enters[k0], want_enters[k0]), desc)
 
+    # (5) verify-only damage: one byte of block data flipped in ONE share of some mutable directories and files.  A deep-check
+    #     with verify=True must not call an object healthy that a direct check(verify=True) of the same object finds damaged.
+    if rng.random() < .55:
+        from allmydata.monitor import Monitor
+        muts = [o for o in seen.values() if o.kind in ("dir-sdmf", "dir-mdmf", "ssk", "mdmf")]
+        rng.shuffle(muts)
+        dirs_ = [o for o in muts if o.is_dir and o.children][:rng.randint(1, 2)]
+        files_ = [o for o in muts if not o.is_dir][:rng.randint(0, 2)]
+        damaged = []
+        for o in dirs_ + files_:
+            where = D.damage_block_data(g, o.info.si, rng)
+            if where is not None:
+                damaged.append((o, where))
+        if damaged:
+            walker_client = g.make_client(k=1, happy=1, n=nserv)
+            direct_client = g.make_client(k=1, happy=1, n=nserv)
+            wroot = walker_client.create_node_from_uri(root.info.readonly if via_ro else root.cap)
+            # the grid is no longer honest from here on: a walk that fails on it is not C21's business (C10/C14/C47)
+            st_, dv = g.wait(wroot.start_deep_check(verify=True).when_done())
+            if st_ != "ok":
+                ck.observe("deep-check-failed-on-damaged-grid")
+                dv = None
+            else:
+                judge_deep_check("deep-check(verify=True, damaged shares)", dv, "deep-check-once-per-object")
+            sample = [o for o, _ in damaged] + [o for o in muts if o not in [x for x, _ in damaged]][:3]
+            direct = {}
+            for o in sample:
+                st_, r_ = g.wait(direct_client.create_node_from_uri(o.cap).check(Monitor(), verify=True))
+                if st_ == "ok" and r_ is not None:
+                    direct[o.identity] = r_
+            dr2 = None
+            if rng.random() < .6:
+                wroot2 = g.make_client(k=1, happy=1, n=nserv).create_node_from_uri(root.info.readonly if via_ro else root.cap)
+                st_, dr2 = g.wait(wroot2.start_deep_check_and_repair(verify=True).when_done())
+                if st_ != "ok":
+                    ck.observe("deep-check-and-repair-failed-on-damaged-grid")
+                    dr2 = None
+            dmg = {o.identity: where for o, where in damaged}
+            for ident, r_ in direct.items():
+                o = seen[ident]
+                ck.mon("deep-check-verify-agrees-with-direct-verify")
+                if r_.is_healthy():
+                    if ident in dmg:
+                        ck.observe("direct-verify-calls-damaged-object-healthy")
+                    continue
+                ck.hit("direct-verify-finds-damaged-" + ("directory" if o.is_dir else "file"))
+                for label, results in (("deep-check(verify=True)", dv), ("deep-check-and-repair(verify=True)", dr2)):
+                    if results is None:
+                        continue
+                    try:
+                        wr_ = results.get_results_for_storage_index(o.info.si)
+                    except KeyError:
+                        continue      # judged by the visited-set oracle
+                    pre = wr_.get_pre_repair_results() if hasattr(wr_, "get_pre_repair_results") else wr_
+                    if pre.is_healthy():
+                        ck.violation("deep-check-verify-misses-damage-a-direct-verify-finds",
+                                     "%s reports the %s %s healthy (0 corrupt shares listed: %r) although share %r has a flipped byte in its "
+                                     "block data and a direct check(verify=True) of the same object reports it not healthy (corrupt shares %d)"
+                                     % (label, o.kind, D.show(o.info.verify)[:40], len(pre.get_corrupt_shares()) == 0, dmg.get(ident),
+                                        len(r_.get_corrupt_shares())),
+                                     dict(desc, object=o.kind, damaged_share=list(dmg.get(ident) or ()), walk=label))
+
     nontrivial = any(v >= 2 for v in inlinks.values()) or shape == "cyclic"
     ck.case("graph-" + shape, key=sig, nontrivial=nontrivial,
             sample=dict(desc, kinds=dict(collections.Counter(o.kind for o in objs)), manifest_entries=len(manifest)))
@@ -589,3 +653,4 @@ def one_case(ck, g, rng, caseno):
 #   c21-found-by-readcap               found keyed by get_uri() (write- vs read-cap differ) -> object-visited-more-than-once
 #   seeded/C21-3   DeepStats.add_node returns early for size-0 files           -> deep-stats-differ-from-model (empty LIT file)
 #   seeded/C21-4   DeepChecker (repair) skips nodes without repair cap         -> deep-check-object-count-differs, reachable-object-not-visited
+#   seeded/C14-8   DeepChecker drops verify for mutable directories               -> deep-check-verify-misses-damage-a-direct-verify-finds
